@@ -108,6 +108,13 @@ func Commit(db objects.Store, rs ref.Store, id uuid.UUID) (commits map[string]*o
 }
 
 func Discard(rs ref.Store, id uuid.UUID) (err error) {
+	tx, err := rs.GetTransaction(id)
+	if err != nil {
+		return err
+	}
+	if tx.Status == ref.TSCommitted {
+		return fmt.Errorf("cannot discard committed transaction")
+	}
 	if err = ref.DeleteTransactionRefs(rs, id); err != nil {
 		return
 	}
